@@ -299,7 +299,9 @@ func c05StartWorkers(cfg verifh.Cfg) (func(op []string) string, func()) {
 		body := func(item int) {
 			c5.InsideK(h, ga, verifh.NewRng(uint64(p.Int("rs", 1))*1000003+uint64(item)), -1, item, pan, p.Str("exits", "s"))
 		}
-		ended := c5.Watchdog(c5.StuckAfter, func() {
+		// no saturator here: the history moves as long as items flow, a run whose dispatcher waits for a slot that
+		// never comes back is given up after the no-progress window
+		ended := c5.WatchdogProgress(h, c5.StuckIdle, c5.StuckAfter, func() {
 			defer func() { _ = recover() }() // mr re-panics a mapper's panic in the caller
 			switch kind {
 			case "fx":
